@@ -36,6 +36,7 @@ ASSUMPTIONS = [
     "scheduler effects on the calibration are represented by injected clocks (every bisection outcome is reachable by the steered clock) plus the real clock",
     "steps after numerical exhaustion of the candidates are not judged (known finding K2 of C01)",
 ]
+RULE = RULE + " " + forms.RULE_SUFFIX
 
 KINDS = ("clustered", "clustered", "clustered", "uniform", "gauss", "dup_rows", "lattice")
 EXPLICIT = (1e-9, 0.01, 0.1, 0.5, 0.99, 1.0)
